@@ -48,6 +48,9 @@ Failed(g, ns) ==
   \cup (IF C12_LabelOK(g, ns) THEN {} ELSE {"C12_LabelOK"})
   \cup (IF C08_OneVoterDelta(ns) THEN {} ELSE {"C08_OneVoterDelta"})
   \cup (IF C11_DemotedLeaderStepsDown(ns) THEN {} ELSE {"C11_DemotedLeaderStepsDown"})
+  \cup (IF C07_AtMostOnce(ns) THEN {} ELSE {"C07_AtMostOnce"})
+  \cup (IF C07_RejectedNeverApplied(g, ns) THEN {} ELSE {"C07_RejectedNeverApplied"})
+  \cup (IF C07_RealTimeOrder(g, ns) THEN {} ELSE {"C07_RealTimeOrder"})
   \cup (IF C19_Ordered(ns) THEN {} ELSE {"C19_Ordered"})
   \cup (IF C19_LatestIsNewest(ns) THEN {} ELSE {"C19_LatestIsNewest"})
   \cup g.bad
@@ -64,7 +67,10 @@ Next ==
            b0    == IF start THEN after ELSE cur
            ev0   == IF "acts" \in DOMAIN rec.ev THEN [rec.ev EXCEPT !.acts = {ActOf(rec.ev.acts[k]) : k \in 1..Len(rec.ev.acts)}] ELSE rec.ev
            evx   == IF "done" \in DOMAIN rec /\ "done" \notin DOMAIN ev0
-                    THEN ev0 @@ [done |-> {[n |-> rec.done[k].n, op |-> rec.done[k].op, res |-> rec.done[k].err, k |-> k] : k \in 1..Len(rec.done)}]
+                    THEN ev0 @@ [done |-> {LET d == rec.done[k] IN
+                                           [n |-> d.n, op |-> d.op, res |-> d.err, k |-> k, task |-> d.task, val |-> d.val,
+                                            pos |-> IF "pos" \in DOMAIN d THEN d.pos ELSE 0,
+                                            rd |-> IF "read" \in DOMAIN d THEN d.read ELSE << >>] : k \in 1..Len(rec.done)}]
                     ELSE ev0
            g1    == GhostStep(g0, b0, after, evx, DOMAIN after)
            seen  == IF start THEN {} ELSE {v[1] : v \in {w \in viol : w[2] = rec.sched}}
